@@ -43,7 +43,9 @@ def RULE(tier):
         + f" x every chunking x every axis; binary ops {{+,-,*,/,<,==,!=,maximum,where}} between two independently masked and independently "
         f"chunked operands of length <= {3 if q else 4} (masked dask | plain dask | numpy.ma | masked scalar) and (2,2) against (2,) "
         "broadcasting; float data over {1.5,NaN,inf,0} for masked_invalid / fix_invalid. Oracle: mask equal, data equal at unmasked "
-        "cells, dtype, fill_value where the statement names it, block shapes. non-trivial = >= 2 chunks on some operand."
+        "cells, dtype, fill_value where the statement names it, block shapes; fill values {default, 7, NaN, inf, negative} x int/float data "
+        "x every mask x every chunking x {compute assembly, filled, rechunk to every other chunking, filled after rechunk} with the "
+        "fill_value compared NaN-aware. non-trivial = >= 2 chunks on some operand."
     )
 
 
@@ -102,7 +104,8 @@ BKINDS = ["ma", "plain", "npma", "scalar"]
 BUILDS = ["ma", "ma_np", "fa"]
 INVALID_ALPHA = (1.5, "nan", "inf", 0.0)
 
-KINDS = [("un", 10), ("red", 8), ("red2", 14), ("bin", 10), ("inv", 2), ("un2", 2)]
+KINDS = [("un", 12), ("red", 8), ("red2", 16), ("bin", 12), ("inv", 2), ("un2", 2), ("fill", 8)]
+FILLS = {"f8": (None, 7.0, "nan", -1.5, "inf"), "i8": (None, 7, -1)}
 
 
 def shards(tier):
@@ -178,6 +181,30 @@ def gen(kind, tier):
                 for ch in chs(n):
                     for op in ("masked_invalid", "fix_invalid", "fix_invalid_f", "masked_invalid_sum", "masked_invalid_on_masked"):
                         yield ("inv", xs, ch, op)
+    elif kind == "fill":
+        # fill values (default, small, NaN/inf for float data, a negative one) x every path on which dask has to carry the fill value
+        # across block boundaries: compute() assembly, filled() per block, rechunk to EVERY other chunking (merge and split), each
+        # observed through the computed fill_value / mask / data and through da.ma.filled
+        shapes = [(n,) for n in range(0, n_max + 1)] + [(2, 2)] + ([(2, 3)] if T else [])
+        for shp in shapes:
+            size = int(np.prod(shp))
+            allch = list(enums.chunkings(shp))
+            for dt in ("f8", "i8"):
+                for fv in FILLS[dt]:
+                    for mi, m in enumerate(masks_of(size)):
+                        if Q and size >= 4 and fv in (None, 7, 7.0, "inf") and mi % 3:
+                            continue  # sized: the largest shapes meet the default/plain fill values on a third of the masks
+                        for ch in allch:
+                            for build in ("fa", "ma"):
+                                yield ("fill", shp, dt, m, ch, build, fv, ("compute",))
+                                yield ("fill", shp, dt, m, ch, build, fv, ("filled",))
+                                if build == "ma" and Q and size >= 4:
+                                    continue
+                                for new in allch:
+                                    if new != ch:
+                                        yield ("fill", shp, dt, m, ch, build, fv, ("rechunk", new))
+                                        if T or fv not in (None, 7, 7.0):
+                                            yield ("fill", shp, dt, m, ch, build, fv, ("rechunk_filled", new))
     elif kind == "un2":
         for shp in [(2, 2)] + ([(2, 3)] if T else []):
             for m in masks_of(shp[0] * shp[1]):
@@ -279,8 +306,11 @@ def ma_equal(got, want, rtol=0.0, check_fill=False, plain=False):
             ok = np.array_equal(a, b)
     if not ok:
         return f"unmasked data {a!r} != {b!r} (mask {wm.astype(int)!r})"
-    if check_fill and w_is_ma and g_is_ma and wm.any():
-        if not np.array_equal(np.asarray(got.fill_value), np.asarray(want.fill_value)):
+    if check_fill == "always" and w_is_ma and not g_is_ma:
+        return f"fill_value lost: dask computes a plain {type(got).__name__}, numpy.ma a masked array with fill_value {want.fill_value!r}"
+    if check_fill and w_is_ma and g_is_ma and (wm.any() or check_fill == "always"):
+        gf, wf = np.asarray(got.fill_value), np.asarray(want.fill_value)
+        if gf.dtype != wf.dtype or not np.array_equal(gf, wf, equal_nan=gf.dtype.kind in "fc"):
             return f"fill_value {got.fill_value!r} != {want.fill_value!r}"
     return None
 
@@ -486,6 +516,21 @@ def run_case(case, ctx):
         nontrivial = any(len(c) >= 2 for c in cha) or len(chb) >= 2
         f_np = lambda: binary(op, np_masked(x, ma_), np_masked(y, mb), False)
         f_da = lambda: binary(op, da_masked(x, ma_, cha, "ma"), da_masked(y, mb, (chb,), "ma"), True)
+    elif kind == "fill":
+        _, shp, dt, m, ch, build, fv, path = case
+        x = base_data(shp, ctx.seed, dt)
+        fill = {"nan": np.nan, "inf": np.inf}.get(fv, fv)
+        opname = "fill." + path[0]
+        nontrivial = any(len(c) >= 2 for c in ch) or (len(path) > 1 and any(len(c) >= 2 for c in path[1]))
+        check_fill = "always"
+        f_np = lambda: np.ma.filled(np_masked(x, m, fill)) if path[0] in ("filled", "rechunk_filled") else np_masked(x, m, fill)
+
+        def f_da():
+            d = da_masked(x, m, ch, build, fill)
+            if path[0] in ("rechunk", "rechunk_filled"):
+                d = d.rechunk(path[1])
+            return da.ma.filled(d) if path[0] in ("filled", "rechunk_filled") else d
+
     elif kind == "inv":
         _, xs, ch, op = case
         x = np.array([{"nan": np.nan, "inf": np.inf}.get(v, v) for v in xs], dtype="f8")
